@@ -33,6 +33,7 @@ ASSUMPTIONS = [
 
 K_TOL = 2e3
 K_FS = 2e2
+EPS64 = float(np.finfo(float).eps)
 ZS = [0.0, 1.5, -2.0, 40.0]
 
 
@@ -384,6 +385,117 @@ def run_free(case, seed, R):
 
 
 # ---------------------------------------------------------------------------------------------
+# threshold sizes (fast paths, FFT length classes): a few probe fields per shape, not closed over the data dimension
+
+def probe_fields(shape, seed, cdt):
+    """unit impulses at the origin sample, at the two far corners, and one seeded dense complex field"""
+    out = []
+    for name, idx in (('delta-origin', (shape[0] // 2, shape[1] // 2)), ('delta-corner00', (0, 0)), ('delta-last', (shape[0] - 1, shape[1] - 1))):
+        d = np.zeros(shape, dtype=cdt)
+        d[idx] = 1
+        out.append((name, d))
+    out.append(('dense', dense(shape, seed, 13).astype(cdt)))
+    return out
+
+
+def mod4(shape):
+    return 'x'.join('odd' if s % 2 else f'{s % 4}mod4' for s in shape)
+
+
+def run_fft_large(case, seed, R):
+    si, Q = tuple(case['in']), case['Q']
+    so = tuple(math.ceil(s * Q) for s in si)
+    big = max(so)
+    cell = f'large:{mod4(so)}'
+    for prec in (64, 32):
+        reset_executors(prec)
+        try:
+            eps, cdt = eps_of(prec), cdt_of(prec)
+            tol = K_TOL * eps * math.log2(big + 1)
+            for label, x in probe_fields(si, seed, cdt):
+                e0 = energy(x)
+                want = np.zeros(so[0] * so[1], dtype=complex)
+                want[embed_index(si, so)] = x.ravel()
+                want = want.reshape(so)
+                for first, second in ((propagation.focus, propagation.unfocus), (propagation.unfocus, propagation.focus)):
+                    n1, n2 = first.__name__, second.__name__
+                    y = R.call(first, x.copy(), Q)
+                    if y is FAILED:
+                        continue
+                    if not R.expect(np.shape(y) == so, f'{n1}:{cell}:shape', f'shape {np.shape(y)} != {so}'):
+                        continue
+                    R.expect_close(energy(y), e0, tol * e0 * 4, f'{n1}:energy:{cell}:p{prec}', f'energy of {n1}({label} {si}, Q={Q})')
+                    if label == 'delta-origin':
+                        # an impulse at the origin sample transforms to the constant 1/sqrt(N) (zero phase everywhere)
+                        R.expect_close(y, np.full(so, 1 / math.sqrt(so[0] * so[1])), tol, f'{n1}:origin-impulse:{cell}:p{prec}',
+                                       f'{n1}(impulse at the origin sample of {si}, Q={Q}) is not the constant 1/sqrt(N)')
+                    b = R.call(second, y, 1)
+                    R.expect_close(b, want, tol * max(1.0, float(np.abs(x).max())), f'{n2}({n1}):{cell}:p{prec}',
+                                   f'{n2}({n1}(x, Q={Q}), 1) is not the zero-padded x; input {label} of shape {si}')
+        finally:
+            config.precision = 64
+    R.nontrivial()
+    R.outcome('fft-large')
+
+
+def run_band_large(case, seed, R):
+    n, N = tuple(case['in']), tuple(case['out'])
+    Q = (N[0] / n[0], N[1] / n[1])
+    Qb = tuple(n[a] * Q[a] / N[a] for a in (0, 1))
+    big = max(N)
+    tol = 200 * EPS64 * big ** 1.5        # as C01 'large': chirp phases grow like n, accumulation like sqrt(n)
+    for method in ('mdft', 'czt'):
+        for fwd in (True, False):
+            reset_executors(64)
+            f1, f2 = engine(method, fwd), engine(method, not fwd)
+            n1, n2 = ENAME[(method, fwd)], ENAME[(method, not fwd)]
+            for label, x in probe_fields(n, seed, complex):
+                y = R.call(f1, x.copy(), Q, N)
+                if y is FAILED:
+                    continue
+                if not R.expect(np.shape(y) == N, f'{n1}:large:shape', f'shape {np.shape(y)} != {N}'):
+                    continue
+                e0 = energy(x)
+                R.expect_close(energy(y), e0, tol * e0 * 4, f'{n1}:band-complete:energy:large', f'energy, {label} {n} -> {N}')
+                b = R.call(f2, y, Qb, n)
+                R.expect_close(b, x, tol * max(1.0, float(np.abs(x).max())), f'{n2}({n1}):band-complete:large', f'round trip, {label} {n} -> {N} -> {n}')
+    R.nontrivial()
+    R.outcome('band-large')
+
+
+def run_free_large(case, seed, R):
+    si, wvl, dx = tuple(case['in']), case['wvl'], case['dx']
+    for prec in (64, 32):
+        reset_executors(prec)
+        try:
+            eps, cdt = eps_of(prec), cdt_of(prec)
+            k2 = sum((0.5 / dx) ** 2 for _ in si)
+            for label, x in probe_fields(si, seed, cdt)[1:]:
+                e0 = energy(x)
+                for Q in (1, 2):
+                    so = tuple(Q * s for s in si)
+                    want = np.zeros(so[0] * so[1], dtype=complex)
+                    want[embed_index(si, so)] = x.ravel()
+                    want = want.reshape(so)
+                    for z1, z2 in ((1.5, -2.0), (40.0, 1.5)):
+                        t = K_FS * eps * (1 + np.pi * wvl / 1e3 * (abs(z1) + abs(z2) + abs(z1 + z2)) * k2) * math.log2(max(so) + 1) * max(1.0, float(np.abs(x).max()))
+                        a = R.call(propagation.angular_spectrum, x.copy(), wvl, dx, z1, Q)
+                        if a is FAILED or not R.expect(np.shape(a) == so, 'angular_spectrum:large:shape', f'shape {np.shape(a)} != {so}'):
+                            continue
+                        R.expect_close(energy(a), e0, t * e0 * 4, f'angular_spectrum:energy:large:p{prec}:Q={Q}', f'energy, {label} {si}, z={z1}')
+                        back = R.call(propagation.angular_spectrum, a, wvl, dx, -z1, 1)
+                        R.expect_close(back, want, t, f'angular_spectrum:inverse:large:p{prec}:Q={Q}', f'AS(-z) AS(z) x != x, {label} {si}, z={z1}')
+                        ab = R.call(propagation.angular_spectrum, a, wvl, dx, z2, 1)
+                        direct = R.call(propagation.angular_spectrum, x.copy(), wvl, dx, z1 + z2, Q)
+                        if ab is not FAILED and direct is not FAILED:
+                            R.expect_close(ab, np.asarray(direct), t, f'angular_spectrum:additive:large:p{prec}:Q={Q}', f'AS(z2) AS(z1) x != AS(z1+z2) x, {label} {si}, z1={z1}, z2={z2}')
+        finally:
+            config.precision = 64
+    R.nontrivial()
+    R.outcome('free-large')
+
+
+# ---------------------------------------------------------------------------------------------
 
 def plan(tier, seed):
     B = 6 if tier == 'quick' else 9
@@ -397,6 +509,14 @@ def plan(tier, seed):
     fshapes = [s for s in shapes if max(s) <= Bf]
     free_cases = [{'in': s, 'wvl': wvl, 'dx': dx, 'prec': p} for s in fshapes for wvl in (0.5, 1.55) for dx in (0.01, 0.25) for p in (64, 32)]
     rs = lambda: reset_executors(64)   # noqa
+    # threshold alphabet: sides around powers of two / typical fast-path sizes, every residue mod 4 and both parities
+    sides = [62, 63, 64, 65, 66, 126, 127, 128, 129, 130, 132, 256, 258] + ([] if tier == 'quick' else [255, 257, 300, 510, 512, 514, 1000, 1024, 1026])
+    small_sides = [31, 32, 33, 63, 64, 65, 66] + ([] if tier == 'quick' else [127, 128, 129, 130])
+    fl_cases = [{'in': [a, b], 'Q': 1} for a in sides for b in sides] + [{'in': [a, b], 'Q': 2} for a in small_sides for b in small_sides]
+    fl_cases.sort(key=lambda c: (c['in'][0] * c['in'][1] * c['Q'] ** 2, c['in'], c['Q']))
+    bl_in = [[63, 64], [64, 66], [100, 128], [127, 130], [128, 128], [130, 128]] + ([] if tier == 'quick' else [[255, 258], [256, 300], [512, 514]])
+    bl_cases = [{'in': n, 'out': N} for n in bl_in for N in ([n[0], n[1]], [2 * n[0], 2 * n[1]], [n[0] + 1, n[1] + 3])]
+    frl_cases = [{'in': s, 'wvl': wvl, 'dx': dx} for s in ([64, 64], [63, 66], [128, 130], [130, 128], [127, 129], [256, 258]) for (wvl, dx) in ((0.5, 0.01), (1.55, 0.25))]
     return [
         ScopeUnit('fft_route', fft_cases, run_fft,
                   f'every input shape in [1..{B}]^2 (square and not, every parity) x Q in {{1,2,3,1.5}} x precision {{64 / complex128, 32 / complex64}}: operator matrices (all complex deltas) of focus and unfocus must satisfy A^H A = I '
@@ -412,4 +532,12 @@ def plan(tier, seed):
                   f'every shape in [1..{Bf}]^2 x wvl in {{0.5,1.55}} x dx in {{0.01,0.25}} x precision {{64,32}}; inside every case z ranges over {ZS}, all 16 ordered pairs (z1,z2), all sums and negations: '
                   '|tf| = 1, tf(0) = 1, tf(z1) tf(z2) = tf(z1+z2) on the grid and the doubled grid; operator matrices of angular_spectrum with Q=1 and Q=2 (padding form): AS(0) = id / zero padding, A^H A = I, AS(-z) AS(z) = I, '
                   'AS(z2) AS(z1) = AS(z1+z2) for every ordered pair; tf= form, Wavefront.free_space (dz, Q, tf) on a dense field: value, energy, inverse, metadata; tolerance 2e2*eps*(1 + largest kernel phase)', reset=rs),
+        ScopeUnit('fft_route_large', fl_cases, run_fft_large,
+                  f'threshold alphabet, NOT closed over the data dimension: every shape with both sides in {sides} at Q=1 and both sides in {small_sides} at Q=2 (every parity and residue mod 4 on each axis, '
+                  'array sizes below and above 128*128 and 256*256) x precision {64,32} x 4 probe fields (impulse at the origin sample, at both far corners, seeded dense): energy of focus / unfocus, '
+                  'impulse at the origin -> the constant 1/sqrt(N), unfocus(focus(x,Q),1) and focus(unfocus(x,Q),1) equal the harness-embedded x', reset=rs),
+        ScopeUnit('band_complete_large', bl_cases, run_band_large,
+                  f'threshold alphabet, NOT closed over the data dimension: inputs {bl_in} onto the full band of the same, doubled and (+1,+3) size x {{mdft, czt}} x both orders x 4 probe fields: energy and round trip', reset=rs),
+        ScopeUnit('free_space_large', frl_cases, run_free_large,
+                  'threshold alphabet, NOT closed over the data dimension: shapes (64,64),(63,66),(128,130),(130,128),(127,129),(256,258) x 2 (wvl, dx) x precision {64,32} x Q {1,2} x 3 probe fields x 2 (z1,z2): energy, AS(-z)AS(z) = id, additivity', reset=rs),
     ]
